@@ -8,6 +8,7 @@ mod c03;
 mod c04;
 mod c05;
 mod c06;
+mod c06_matrix;
 mod c07;
 mod c08;
 mod c09;
